@@ -16,7 +16,9 @@ package main
 //	pn         panic
 //
 // Sources (by id, see ctSources): valid / compatible / incompatible / ill-typed / wrongly named / with an
-// enum / contract interface / unparsable / failing initializer / without the field.  <bits> are facts
+// enum / contract interface / unparsable / failing initializer / without the field / an enum before, between
+// or after other nested declarations (struct, resource, event, struct interface) / nested declarations
+// without an enum.  <bits> are facts
 // about the sources computed with the real parser, checker and update validator (valid, declared name
 // matches, declares enums, is an interface, initializer fails, compatibility matrix); Exec recomputes
 // them and answers `bits-mismatch` when the line's bits are stale.
@@ -67,6 +69,20 @@ access(all) contract %[1]s: V { access(all) enum E: UInt8 { access(all) case a }
 access(all) contract %[1]s: V { access(all) let x: Int; init() { self.x = 8; panic("init") } access(all) fun v(): Int { return 18 } }`,
 	/*9 nofield*/ `/*s9*/ import V from 0x4
 access(all) contract %[1]s: V { init() {} access(all) fun v(): Int { return 19 } }`,
+	// several nested declarations, the enum first / in the middle / last / absent (ids from 10 are written as
+	// letters so that the marker keeps its length)
+	/*10 enum, struct*/ `/*sa*/ import V from 0x4
+access(all) contract %[1]s: V { access(all) enum E: UInt8 { access(all) case a } access(all) struct P {} access(all) let x: Int; init() { self.x = 10 } access(all) fun v(): Int { return 20 } }`,
+	/*11 enum, event*/ `/*sb*/ import V from 0x4
+access(all) contract %[1]s: V { access(all) enum E: UInt8 { access(all) case a } access(all) event Ev(n: Int) access(all) let x: Int; init() { self.x = 11 } access(all) fun v(): Int { return 21 } }`,
+	/*12 resource, enum, resource, struct*/ `/*sc*/ import V from 0x4
+access(all) contract %[1]s: V { access(all) resource Q {} access(all) enum E: UInt8 { access(all) case a } access(all) resource Q2 {} access(all) struct P {} access(all) let x: Int; init() { self.x = 12 } access(all) fun v(): Int { return 22 } }`,
+	/*13 struct, event, enum*/ `/*sd*/ import V from 0x4
+access(all) contract %[1]s: V { access(all) struct P {} access(all) event Ev(n: Int) access(all) enum E: UInt8 { access(all) case a } access(all) let x: Int; init() { self.x = 13 } access(all) fun v(): Int { return 23 } }`,
+	/*14 struct, resource, event, no enum*/ `/*se*/ import V from 0x4
+access(all) contract %[1]s: V { access(all) struct P {} access(all) resource Q {} access(all) event Ev(n: Int) access(all) let x: Int; init() { self.x = 14 } access(all) fun v(): Int { return 24 } }`,
+	/*15 two enums around a struct interface and a struct*/ `/*sf*/ import V from 0x4
+access(all) contract %[1]s: V { access(all) enum E: UInt8 { access(all) case a } access(all) struct interface PI {} access(all) enum F: UInt8 { access(all) case b } access(all) struct P: PI {} access(all) let x: Int; init() { self.x = 15 } access(all) fun v(): Int { return 25 } }`,
 }
 
 var ctNames = []string{"A", "B", "C"}
@@ -286,7 +302,7 @@ func (g *ctGen) key(preferDeployed bool) (int, int) {
 func (g *ctGen) src(goodBias int) int {
 	r := g.r
 	if r.Chance(goodBias) {
-		return []int{0, 1, 5, 9, 0, 1}[r.Intn(6)]
+		return []int{0, 1, 5, 9, 0, 1, 10, 11, 12, 13, 14, 15}[r.Intn(12)]
 	}
 	return r.Intn(len(ctSources))
 }
@@ -300,7 +316,7 @@ func (g *ctGen) op(mutating *bool) string {
 			a, n = r.Intn(3), r.Intn(3)
 		}
 		s := g.src(65)
-		if _, ok := g.code[[2]int{a, n}]; !ok && (s == 0 || s == 1 || s == 2 || s == 5 || s == 6 || s == 9) {
+		if _, ok := g.code[[2]int{a, n}]; !ok && (s == 0 || s == 1 || s == 2 || s == 5 || s == 6 || s >= 9) {
 			g.code[[2]int{a, n}] = s
 		}
 		*mutating = true
